@@ -587,6 +587,8 @@ func runC18(c *Ctx) {
 		}
 	}
 	c18ActionHeadersWin(c)
+	c18AdapterAsNamed(c)
+	c18PointerSizesNonNegative(c)
 }
 
 func constStringOf(p *Prog, pkg, name string) string {
@@ -715,4 +717,117 @@ func c18ActionHeadersWin(c *Ctx) {
 		}
 	}
 	c.AtLeast("R4", "constant-key header writes in tq", n, 8)
+}
+
+// c18AdapterAsNamed (R4, which adapter runs the actions): the batch response names the transfer adapter its actions
+// are meant for; an absent name means "basic" (docs/api/batch.md). The running adapter is kept only when its name
+// equals the name the response gave — never because the response named none — otherwise basic actions are
+// carried out by a tus or custom adapter left over from an earlier batch.
+func c18AdapterAsNamed(c *Ctx) {
+	p := c.P
+	fn := p.Fn("tq", "(*TransferQueue).useAdapter")
+	if fn == nil {
+		c.Missing("R4", "(*tq.TransferQueue).useAdapter", "not found")
+		return
+	}
+	var name *ssa.Parameter
+	for _, prm := range fn.Params {
+		if short(prm.Type().String()) == "string" {
+			name = prm
+		}
+	}
+	pass := PassEdges(fn, func(cond ssa.Value) (bool, bool) {
+		op, x, y, ok := BinCmp(cond)
+		if !ok || (op != token.EQL && op != token.NEQ) {
+			return false, false
+		}
+		isName := func(v ssa.Value) bool { return name != nil && Unwrap(v) == ssa.Value(name) }
+		isAdapterName := func(v ssa.Value) bool {
+			cc, _, ok := CallResult(v)
+			return ok && strings.HasSuffix(CalleeName(cc.Common()), ".Name")
+		}
+		if isName(x) && isAdapterName(y) || isName(y) && isAdapterName(x) {
+			return op == token.EQL, true
+		}
+		return false, false
+	})
+	// the "keep the running adapter" exits: returns that are not preceded by the creation of a new adapter
+	news := CallsIn(fn, "(*tq.concreteManifest).NewAdapterOrDefault", "(tq.Manifest).NewAdapterOrDefault", "(*tq.lazyManifest).NewAdapterOrDefault")
+	cut := EdgeSet(pass)
+	for _, nw := range news {
+		for i := range nw.Block().Succs {
+			cut[Edge{nw.Block(), i}] = true
+		}
+	}
+	// with no adapter yet a new one is always created: assume one is running
+	n := 0
+	for _, r := range ReturnsOf(fn) {
+		if r.Block().Comment == "recover" {
+			continue
+		}
+		n++
+		hit := false
+		ExploreX(fn.Blocks[0], nil, nil, nil, cut, func(v ssa.Value) (*ssa.Const, bool) {
+			if e, trueMeansNil, ok := IsErrNilCheck(v); ok {
+				if _, f, _, isF := FieldOf(e); isF && f == "adapter" {
+					return boolConst(!trueMeansNil, v.Type()), true // q.adapter != nil
+				}
+			}
+			return nil, false
+		}, func(in ssa.Instruction, st PState) bool {
+			if in == ssa.Instruction(r) {
+				hit = true
+			}
+			for _, nw := range news {
+				if in == nw.(ssa.Instruction) {
+					return false
+				}
+			}
+			return !hit
+		})
+		c.Check(!hit && nonVacuous(pass), "R4", fmt.Sprintf("useAdapter:kept-only-if-named#%d", n), p.InstrPos(r), "the running adapter is kept only when the response names it",
+			"the running adapter can be kept although the batch response does not name it (e.g. names none, which means basic): the actions of that response are carried out by a leftover tus/custom adapter with another protocol")
+	}
+	c.AtLeast("R4", "adapter creations in useAdapter", len(news), 1)
+}
+
+// c18PointerSizesNonNegative (R6, where sizes come from): the sizes put into batch requests are those of scanned
+// pointers; the pointer decoder is the place that refuses a negative size, so that no request can carry one
+// (schema: minimum 0). The decoder's result is returned only behind the non-negativity test of the parsed size.
+func c18PointerSizesNonNegative(c *Ctx) {
+	p := c.P
+	fn := p.Fn("lfs", "decodeKV")
+	if fn == nil {
+		c.Missing("R6", "lfs.decodeKV", "not found")
+		return
+	}
+	n := 0
+	for _, r := range ReturnsOf(fn) {
+		np, _, ok := CallResult(r.Results[0])
+		if !ok || CalleeName(np.Common()) != "lfs.NewPointer" {
+			continue
+		}
+		n++
+		sizeArg := LiveValue(np.Call.Args[1])
+		pass := PassEdges(fn, func(cond ssa.Value) (bool, bool) {
+			op, x, y, ok := BinCmp(cond)
+			if !ok || !SameValue(x, sizeArg) {
+				return false, false
+			}
+			k, isK := ConstInt(y)
+			if !isK {
+				return false, false
+			}
+			switch {
+			case op == token.LSS && k == 0, op == token.LEQ && k == -1:
+				return false, true
+			case op == token.GEQ && k == 0, op == token.GTR && k == -1:
+				return true, true
+			}
+			return false, false
+		})
+		g, path := Guarded(fn.Blocks[0], r, pass, nil)
+		c.Check(g && nonVacuous(pass), "R6", fmt.Sprintf("decoded-pointer-size-nonnegative#%d", n), p.InstrPos(r), "a pointer is decoded only with size >= 0", "the pointer decoder can hand out a pointer with a negative size: scanner-driven commands put it into the batch request as it is (`\"size\": -5` violates the request schema's minimum 0): "+path)
+	}
+	c.AtLeast("R6", "pointer constructions in decodeKV", n, 1)
 }
